@@ -1,8 +1,9 @@
 SPECIFICATION Spec
 CONSTANTS
-  MaxInst = 4
+  MaxInst = 3
   MaxWrappers = 4
-  MaxDepth = 10
+  MaxDepth = 9
+  MaxMarks = 1
 INVARIANT AtMostOnce
 INVARIANT OnlyViaOwner
 INVARIANT OneOwner
